@@ -151,6 +151,9 @@ func c08CompileJobs() []c08CompileJob {
 		{`I + len(S) + len(7..6)`, func(y *c08Yield) []expr.Option { // the same folded constant at another position
 			return []expr.Option{sharedEnvOpt, expr.Patch(y)}
 		}},
+		{`Twice(3) + I`, func(y *c08Yield) []expr.Option { // a constant call WITHOUT the ConstExpr option another job uses
+			return []expr.Option{sharedEnvOpt, expr.Patch(y)}
+		}},
 		{`1 % 0 + I`, func(y *c08Yield) []expr.Option { // rejected by the constant folder: the error (position, snippet) is the result
 			return []expr.Option{sharedEnvOpt, expr.Patch(y)}
 		}},
@@ -201,7 +204,7 @@ func c08CompileScenarios(r *report.Run, order *int64) (schedules, steps int64, c
 			combos = append(combos, []int{a, b})
 		}
 	}
-	combos = append(combos, []int{6, 9, 10}, []int{8, 8, 9}, []int{7, 9, 11}, []int{9, 11, 11}, []int{0, 0, 6}, []int{1, 2, 7}, []int{3, 4, 4}, []int{5, 5, 9})
+	combos = append(combos, []int{7, 10, 11}, []int{9, 9, 10}, []int{8, 10, 12}, []int{10, 12, 12}, []int{0, 0, 7}, []int{1, 2, 8}, []int{4, 5, 5}, []int{6, 6, 10}, []int{3, 9, 9})
 	type pass struct {
 		combos [][]int
 		fine   bool
@@ -229,7 +232,7 @@ func c08CompileScenarios(r *report.Run, order *int64) (schedules, steps int64, c
 			}
 			if ps.fine {
 				bound = 1 // about 10x more scheduling points per thread: every single preemption (thorough: two, on the pairs that share option values)
-				if r.Tier == "thorough" && (combo[0] <= 6 || combo[0] == combo[1]) {
+				if r.Tier == "thorough" && (combo[0] <= 7 || combo[0] == combo[1]) {
 					bound = 2
 				}
 			}
